@@ -16,6 +16,9 @@ KNOWN_FONT = 'stroked-text-huge-font-size'
 KNOWN_IMAGE = 'image-huge-size'
 KNOWN_TORIGIN = 'transform-origin-sign'
 KNOWN_ARC = 'path-arc-huge'
+# proposed in round 4, NOT registered in known_findings.txt (so they are reported as violations until the maintainer decides)
+KNOWN_QUAD = 'stroked-path-huge-quad'
+KNOWN_TORIGIN_EXP = 'transform-origin-dangling-exponent'
 
 # CPU-time budget of one Tree::from_data call: A + B * bytes (microseconds, thread CPU time measured inside the worker).
 # Noise floor measured over the whole corpus (1695 files) with 16 workers on a loaded machine (load average 60):
@@ -277,6 +280,28 @@ def origin_sign(data):
     return False
 
 
+def quad_huge(data):
+    """a stroke is present and some path data has a quadratic segment (Q / T) and a coordinate of magnitude >= 1e18"""
+    t = _text(data)
+    if 'stroke' not in t:
+        return False
+    for m in re.finditer(r'\bd\s*=\s*"([^"]*)"', t):
+        d = m.group(1)
+        if re.search(r'[qQtT]', d) and any(_big(n, 1e18) for n in G.NUM_RE.findall(d)):
+            return True
+    return False
+
+
+def origin_dangling_exp(data):
+    """the first token of a transform-origin value is a number with an exponent marker and sign but no exponent digits (`1e+`)"""
+    t = _text(data)
+    for m in re.finditer(r'transform-origin\s*[=:]\s*"?([^";]*)', t):
+        toks = re.split(r'[\s,]+', m.group(1).strip())
+        if toks and re.fullmatch(r'[+-]?(?:\d+\.?\d*|\.\d+)[eE][+-]', toks[0]):
+            return True
+    return False
+
+
 def arc_huge(data):
     t = _text(data)
     for m in re.finditer(r'\bd\s*=\s*"([^"]*)"', t):
@@ -500,6 +525,10 @@ def run(ctx):
             ctx.known_or_violation(KNOWN_TORIGIN, text, replay)
         elif data is not None and ('time limit' in bad or 'CPU time' in bad or 'signal6' in bad) and arc_huge(data):
             ctx.known_or_violation(KNOWN_ARC, text, replay)
+        elif data is not None and 'path_geometry.rs' in bad and 'tiny-skia-path' in bad and quad_huge(data):
+            ctx.known_or_violation(KNOWN_QUAD, text, replay)
+        elif data is not None and 'transform_origin.rs' in bad and origin_dangling_exp(data):
+            ctx.known_or_violation(KNOWN_TORIGIN_EXP, text, replay)
         else:
             ctx.violation(text, replay)
 
